@@ -250,6 +250,11 @@ PoolC13 == SetToSeqD(
   \cup { RD("redirect", r, p) : r \in {"r1"}, p \in {"10", "0", "x"} }
   \cup { RD("redirect", r, "none") : r \in {"missing", "tpl", "perm", "fnjs"} }
   \cup { [RD(k, r, p) EXCEPT !.exc = TRUE] : k \in {"redirect", "redirect-rule"}, r \in {"r1", "r2"}, p \in {"none", "1"} }
+  \* names in a prefix relation (r1 / r1.js), an exception with a priority suffix next to one without,
+  \* directives naming 'X' while only 'X.js' is loaded, a permissioned non-script resource
+  \cup { RD("redirect", "r1.js", "none"), [RD("redirect-rule", "r1.js", "none") EXCEPT !.exc = TRUE],
+         [RD("redirect-rule", "r1", "10") EXCEPT !.exc = TRUE], RD("redirect", "nj", "10"), RD("redirect-rule", "njalias", "none"),
+         RD("redirect", "permcss", "1"), [RD("redirect-rule", "nj.js", "none") EXCEPT !.exc = TRUE] }
   \cup { [R0 EXCEPT !.body = B("/ab")], [R0 EXCEPT !.body = B("/ab"), !.exc = TRUE],
          [R0 EXCEPT !.body = B("/ab"), !.important = TRUE],
          [RD("redirect", "r2", "1") EXCEPT !.important = TRUE],
@@ -268,6 +273,9 @@ ResSeqC13 == <<
   [name |-> "tpl", aliases |-> {}, redirectable |-> FALSE, perm |-> 0, kind |-> "template", content |-> "tpl"],
   [name |-> "fnjs", aliases |-> {}, redirectable |-> FALSE, perm |-> 0, kind |-> "fn/javascript", content |-> "fnjs"],
   [name |-> "perm", aliases |-> {}, redirectable |-> TRUE, perm |-> 1, kind |-> "text/plain", content |-> "perm"],
+  [name |-> "r1.js", aliases |-> {}, redirectable |-> TRUE, perm |-> 0, kind |-> "application/javascript", content |-> "r1.js"],
+  [name |-> "nj.js", aliases |-> {"njalias.js"}, redirectable |-> TRUE, perm |-> 0, kind |-> "application/javascript", content |-> "nj.js"],
+  [name |-> "permcss", aliases |-> {}, redirectable |-> TRUE, perm |-> 2, kind |-> "text/css", content |-> "permcss"],
   [name |-> "al1", aliases |-> {}, redirectable |-> TRUE, perm |-> 0, kind |-> "text/plain", content |-> "late-al1"],
   [name |-> "zz", aliases |-> {"r2"}, redirectable |-> TRUE, perm |-> 0, kind |-> "text/plain", content |-> "late-zz"]
 >>
